@@ -305,6 +305,10 @@ type c17Replay struct {
 	Detail   string      `json:"detail"`
 }
 
+// c17Hung: a round was never answered; the remaining sequential histories of this worker are skipped (each would
+// wait for the guard again).
+var c17Hung bool
+
 // c17Seq runs a sequential history and compares with the model after every step.
 func c17Seq(ops []c17Op, universe map[string]uint64) (string, string, c17View, c17View) {
 	s := c17New("AB")
@@ -330,8 +334,19 @@ func c17Seq(ops []c17Op, universe map[string]uint64) (string, string, c17View, c
 	for i, op := range ops {
 		switch op.Kind {
 		case "update":
+			if c17Hung {
+				return "", "", c17View{}, c17View{}
+			}
 			s.sd <- c17U(op.U)
-			ts := <-s.d.ActiveTargetsChan()
+			var ts map[string][]*discovery.SDTargets
+			select {
+			case ts = <-s.d.ActiveTargetsChan():
+			case <-time.After(30 * time.Second):
+				// a guard against hanging for ever, not an oracle on speed: the loop answers within microseconds
+				c17Hung = true
+				m.apply(op)
+				return "no-answer:after-update", fmt.Sprintf("step %d (%s): the discovery loop published nothing for this round within 30 s (it publishes every round it receives)", i, chk.JSON(op)), m.view(), s.view(universe)
+			}
 			s.e.UpdateTargets(ts)
 		case "reload":
 			if err := s.cm.ReloadFromRaw([]byte(c17Cfg(op.Jobs))); err != nil {
@@ -542,6 +557,10 @@ func init() {
 		depth -= len(prefix)
 		seq = nil
 		r.Counters["sequential_histories"] = r.States
+		if c17Hung {
+			r.Capped, r.CapNote = true, "a discovery round was never published: the remaining sequential histories and the scheduled part of this worker were skipped"
+			return
+		}
 		// (b) schedules
 		bound := 2
 		if c.Thorough() {
